@@ -302,6 +302,21 @@ class ThreadSim(object):
                 if lib(a):
                     self.viol(u["i"], "mutated-url-verifies." + name, "entity=%s alg=%s" % (u["e"], u["alg"]))
                     break
+            # a damaged or placeholder certificate is not the signer's certificate either
+            own = cert_b64(u["key"])
+            others = [cert_b64(k) for k in keys if k != u["key"]]
+            damaged = [own[:40], own[:len(own) // 2], own[:100] + "!" + own[101:], "not a certificate", "AAAA"]
+            if others:
+                damaged.append(others[0][: len(others[0]) - 7])
+            for dc in damaged:
+                self.count("oracle.damaged-cert")
+                try:
+                    bad_ok = bool(sigver.verify_redirect_signature(dict(args), obj.sec.sec_backend, dc))
+                except Exception:
+                    bad_ok = False
+                if bad_ok:
+                    self.viol(u["i"], "verifies-under-damaged-certificate", "entity=%s cert=%r..." % (u["e"], dc[:24]))
+                    break
             # and under every other entity's certificate the library must say no
             for k in keys:
                 if k == u["key"]:
